@@ -35,13 +35,16 @@ func (h *History) Load(filename string) {
 			}
 			panic(err)
 		}
-		line = bytes.TrimSpace(line)
+		// A line is a form exactly as it was added, the blanks and empty
+		// lines at either end are part of it.
 		if 0 < len(line) {
 			var form Form
 			for _, sub := range bytes.Split(line, []byte{'\t'}) {
 				form = append(form, []rune(string(sub)))
 			}
-			h.forms = append(h.forms, form)
+			if !form.Empty() {
+				h.forms = append(h.forms, form)
+			}
 		}
 	}
 }
